@@ -24,9 +24,14 @@ def matrix_fwd(fwd, shape):
 
 def oracle_orth(ck, dims, J, name, shape):
     import pywt
-    w = pywt.Wavelet(name); L = w.dec_len
-    fwd, _ = modules(dims, 2, J, (np.array(w.dec_lo), np.array(w.dec_hi)))
-    _, inv = modules(dims, 2, J, (np.array(w.rec_lo), np.array(w.rec_hi)))
+    if isinstance(name, (tuple, list)):          # 2-D with a different orthogonal wavelet per axis (4-tuple waves)
+        wc, wr = pywt.Wavelet(name[0]), pywt.Wavelet(name[1]); name = list(name)
+        fwd, _ = modules(2, 2, J, tuple(np.array(v) for v in (wc.dec_lo, wc.dec_hi, wr.dec_lo, wr.dec_hi)))
+        _, inv = modules(2, 2, J, tuple(np.array(v) for v in (wc.rec_lo, wc.rec_hi, wr.rec_lo, wr.rec_hi)))
+    else:
+        w = pywt.Wavelet(name); L = w.dec_len
+        fwd, _ = modules(dims, 2, J, (np.array(w.dec_lo), np.array(w.dec_hi)))
+        _, inv = modules(dims, 2, J, (np.array(w.rec_lo), np.array(w.rec_hi)))
     desc = '%dD orthogonality %s periodization J=%d shape=%s' % (dims, name, J, tuple(shape))
     replay = {'oracle': 'orth', 'dims': dims, 'J': J, 'name': name, 'shape': list(shape)}
     A = matrix_fwd(fwd, shape)
@@ -120,6 +125,12 @@ def oracle(ck, extended):
         if L <= 8:
             J2 = rng.randint(1, 2)
             rt.guard(ck, oracle_orth, ck, 2, J2, name, (base * 2 ** (J2 - 1), (base + 2) * 2 ** (J2 - 1)))
+    short = [n for n in names if pywt.Wavelet(n).dec_len <= 8]
+    for _ in range(4 if q else 30):
+        a, b = rng.sample(short, 2)
+        J2 = rng.randint(1, 2)
+        La, Lb = pywt.Wavelet(a).dec_len, pywt.Wavelet(b).dec_len
+        rt.guard(ck, oracle_orth, ck, 2, J2, (a, b), ((La + 2 * rng.randint(0, 1)) * 2 ** (J2 - 1), (Lb + 2 * rng.randint(0, 2)) * 2 ** (J2 - 1)))
     for it in range((30 if q else 300) * (3 if extended else 1)):
         L = 2 * rng.randint(1, 5); J = rng.randint(1, 3)
         N = (L + 2 * rng.randint(0, 3)) * 2 ** (J - 1)
